@@ -62,7 +62,7 @@ def run(tier, seed):
         dict(name="big", f=F(n=1, ops=(1, 2), fins=(1,), masks=(1,) if q else (0, 1), lens=((64, L), (64, L + 1), (64, 70000)), his=(0, 1, 2, 3)),
              singles=2 if q else 12, multis=1),
         # pairs: interleaving, fragments + control frames, things after a terminating frame
-        dict(name="pair", f=F(n=2, ops=(0, 1, 2, 8, 9, 10, 3), masks=(1,) if q else (0, 1), lens=SMALL), singles=4 if q else None, multis=2),
+        dict(name="pair", f=F(n=2, ops=(0, 1, 2, 8, 9, 10, 3), masks=(1,) if q else (0, 1), lens=SMALL), singles=4 if q else 10, multis=2),
         dict(name="pairlen", f=F(n=2, ops=(1, 2, 9), fins=(1,), masks=(0, 1), lens=((7, 1), (7, 125), (16, 126), (64, 65536)) if q else ALL_LENS),
              singles=4 if q else 8, multis=1),
         # longer sequences over a small alphabet
@@ -72,7 +72,7 @@ def run(tier, seed):
     if not q:
         plans += [
             dict(name="trip", f=F(n=3, ops=(0, 1, 2, 8, 9, 3), masks=(1,), lens=((7, 0), (7, 5))), singles=3, multis=1),
-            dict(name="pairrsv", f=F(n=2, ops=(1, 2, 8, 9), rsvs=(0, 4, 7), masks=(1,), lens=((7, 1), (16, 126), (16, 5))), singles=6, multis=1),
+            dict(name="pairrsv", f=F(n=2, ops=(1, 2, 8, 9), rsvs=(0, 4, 7), masks=(1,), lens=((7, 1), (16, 126), (16, 5))), singles=4, multis=1),
         ]
     nplan = len(plans)
     canon_fams = [F(n=len(fixed), fixed=fixed) for (_k, _w, fixed, _wo) in CANON]
